@@ -18,8 +18,8 @@ def classify(pid, rec):
     for f in vlib.load_known():
         if f.get("status") != "open":
             continue
-        if pid not in f.get("properties", [f.get("property")]):
-            continue
+        # matching is structural (program, relation, shape of the discrepancy): the same defect shows up under every
+        # property whose check happens to run the affected program, so the property id is not part of the signature
         m = MATCHERS.get(f.get("matcher"))
         if m and m(rec, f):
             return f
